@@ -12,6 +12,8 @@ pub const FRACS: [f64; 8] = [1.0, 0.5, 0.05, 0.05, 0.05, 0.01, 0.01, 0.002];
 
 #[derive(Clone, Debug, Default)]
 pub struct GenOpts {
+    /// obstacles and goals measure with the library's `distance` only
+    pub library_metric: bool,
     pub planner: Option<PlannerKind>,
     pub families: Vec<&'static str>,
     pub space_kinds: Vec<&'static str>,
@@ -393,7 +395,7 @@ pub fn build_world(geo: &mut Box<dyn Geo>, rng: &mut Xo, ext: f64, family: &'sta
                     obs.push(Obstacle::Ball { c, r: rng.range(0.03, 0.25) * ext });
                 }
             }
-            let mut world = WorldSpec { obstacles: obs };
+            let mut world = WorldSpec { obstacles: obs, ..Default::default() };
             geo.set_worlds(&[world.clone()]);
             let (start, target) = match (sample_valid(&**geo, rng, 0, &any), sample_valid(&**geo, rng, 0, &any)) {
                 (Some(s), Some(t)) => (s, t),
@@ -466,7 +468,7 @@ pub fn build_world(geo: &mut Box<dyn Geo>, rng: &mut Xo, ext: f64, family: &'sta
                     door = Some((dc, thick * rng.range(0.8, 1.6)));
                 }
             }
-            let world = WorldSpec { obstacles: vec![Obstacle::Shell { c: c.clone(), r_in, r_out, door: door.clone() }] };
+            let world = WorldSpec { obstacles: vec![Obstacle::Shell { c: c.clone(), r_in, r_out, door: door.clone() }], ..Default::default() };
             geo.set_worlds(&[world.clone()]);
             let gr = goal_radius.min(0.5 * r_in);
             let (start, target) = if family == "sealed_start" { (c.clone(), far.clone()) } else { (far.clone(), c.clone()) };
@@ -514,7 +516,7 @@ pub fn build_world(geo: &mut Box<dyn Geo>, rng: &mut Xo, ext: f64, family: &'sta
                     }
                 }
             }
-            let world = WorldSpec { obstacles: obs };
+            let world = WorldSpec { obstacles: obs, ..Default::default() };
             geo.set_worlds(&[world.clone()]);
             let (start, target) = match (sample_valid(&**geo, rng, 0, &any), sample_valid(&**geo, rng, 0, &any)) {
                 (Some(s), Some(t)) => (s, t),
@@ -556,7 +558,7 @@ pub fn build_world(geo: &mut Box<dyn Geo>, rng: &mut Xo, ext: f64, family: &'sta
                     obs.push(Obstacle::CompBall { comp: k, c: comp_of(&c), r: rng.range(0.08, 0.3) * scale });
                 }
             }
-            let mut world = WorldSpec { obstacles: obs };
+            let mut world = WorldSpec { obstacles: obs, ..Default::default() };
             geo.set_worlds(&[world.clone()]);
             let (start, mut target) = match (sample_valid(&**geo, rng, 0, &any), sample_valid(&**geo, rng, 0, &any)) {
                 (Some(s), Some(t)) => (s, t),
@@ -605,7 +607,7 @@ pub fn build_world(geo: &mut Box<dyn Geo>, rng: &mut Xo, ext: f64, family: &'sta
             }
             let c = rng.range(-0.4, 0.4);
             let r = (l * rng.range(1.5, 4.0)).max(0.05).min(0.6);
-            let world = WorldSpec { obstacles: vec![Obstacle::Ball { c: vec![c], r }] };
+            let world = WorldSpec { obstacles: vec![Obstacle::Ball { c: vec![c], r }], ..Default::default() };
             geo.set_worlds(&[world.clone()]);
             let a = rng.range(lo + 0.02, c - r - 0.05);
             let b = rng.range(c + r + 0.05, hi - 0.02);
@@ -620,7 +622,7 @@ pub fn build_world(geo: &mut Box<dyn Geo>, rng: &mut Xo, ext: f64, family: &'sta
         "goal_invalid" => {
             let mut wb = open(geo, rng, "goal_invalid");
             wb.goal_radius = goal_radius;
-            wb.world = WorldSpec { obstacles: vec![Obstacle::Ball { c: wb.target.clone(), r: goal_radius * rng.range(1.05, 1.5) + 1e-9 }] };
+            wb.world = WorldSpec { obstacles: vec![Obstacle::Ball { c: wb.target.clone(), r: goal_radius * rng.range(1.05, 1.5) + 1e-9 }], ..Default::default() };
             geo.set_worlds(&[wb.world.clone()]);
             if !geo.valid(0, &wb.start) {
                 return open(geo, rng, "open");
@@ -642,7 +644,7 @@ pub fn build_world(geo: &mut Box<dyn Geo>, rng: &mut Xo, ext: f64, family: &'sta
                     obs.push(Obstacle::Ball { c, r: rng.range(0.03, 0.2) * ext });
                 }
             }
-            let world = WorldSpec { obstacles: obs };
+            let world = WorldSpec { obstacles: obs, ..Default::default() };
             geo.set_worlds(&[world.clone()]);
             let (start, mut target) = match (sample_valid(&**geo, rng, 0, &any), sample_valid(&**geo, rng, 0, &any)) {
                 (Some(s), Some(t)) => (s, t),
@@ -678,7 +680,7 @@ pub fn build_world(geo: &mut Box<dyn Geo>, rng: &mut Xo, ext: f64, family: &'sta
             } else {
                 None
             };
-            let world = WorldSpec { obstacles: vec![Obstacle::Wall { axis, lo: pos, hi: pos + thick, gap }] };
+            let world = WorldSpec { obstacles: vec![Obstacle::Wall { axis, lo: pos, hi: pos + thick, gap }], ..Default::default() };
             geo.set_worlds(&[world.clone()]);
             let left = |s: &St| s[axis] < pos - 1e-9;
             let right = |s: &St| s[axis] > pos + thick + 1e-9;
@@ -921,6 +923,10 @@ pub fn base(rng: &mut Xo, prop: &str, seed: u64, index: u64, o: &GenOpts) -> Sce
             off += c.width();
         }
     }
+    // half of the scenarios define obstacles and goal with the harness's own metric (never the
+    // mirrored ones: the Python side measures with the wrapper's `distance`)
+    let hm = !o.library_metric && rng.chance(0.5);
+    wb.world.harness_metric = hm;
     Scenario {
         property: prop.into(),
         family: wb.family.into(),
@@ -930,7 +936,7 @@ pub fn base(rng: &mut Xo, prop: &str, seed: u64, index: u64, o: &GenOpts) -> Sce
         worlds: vec![wb.world],
         problems: vec![ProblemSpec {
             starts: vec![wb.start],
-            goal: GoalSpec { target: wb.target, radius: wb.goal_radius, sampler, sampler_seed: rng.u64() % 1_000_000, comp: wb.goal_comp },
+            goal: GoalSpec { target: wb.target, radius: wb.goal_radius, sampler, sampler_seed: rng.u64() % 1_000_000, comp: wb.goal_comp, harness_metric: hm },
             world: 0, space: None
         }],
         planner,
